@@ -148,6 +148,7 @@ def community_louvain(W, gamma=1, ci=None, B='modularity', seed=None):
 
     if B == 'modularity':
         B = W - gamma * np.outer(np.sum(W, axis=1), np.sum(W, axis=0)) / s
+        B = (B + B.T) / 2
     elif B == 'potts':
         B = W - gamma * np.logical_not(W)
     elif B == 'negative_sym':
